@@ -141,7 +141,8 @@ def share_correspondence(ctx, n, sub="share", compare=True):
     # the theorems' hypotheses, evaluated by the model, and their conclusions on the IMPLEMENTATION's lines
     stats = {"steps": 0, "read_of_stable_file_checked": 0, "reads_in_all_stable_state_checked": 0,
              "pure_request_checked": 0, "label_not_well_formed": 0, "target_stable": 0, "target_not_stable": 0,
-             "states_all_stable": 0}
+             "states_all_stable": 0, "stored_file_observations": 0, "stored_file_observations_stable": 0,
+             "files_stored_by_create": [0, 0], "files_stored_by_flatten_segment_balance": [0, 0]}
     prev = {}
     for case, chk, obs in zip(open(cases), open(checks), open(impl)):
         if case.strip() == "S":
@@ -158,6 +159,15 @@ def share_correspondence(ctx, n, sub="share", compare=True):
             stats["target_not_stable"] += 1
         if f.get("all") == "1":
             stats["states_all_stable"] += 1
+        if "/" in f.get("post", ""):
+            a, b = f["post"].split("/")
+            stats["stored_file_observations"] += int(b)
+            stats["stored_file_observations_stable"] += int(a)
+        if "/" in f.get("new", ""):
+            a, b = f["new"].split("/")
+            key = "files_stored_by_create" if case.startswith("CREATE") else "files_stored_by_flatten_segment_balance"
+            stats[key][0] += int(a)      # stable
+            stats[key][1] += int(b)      # stored
         same = all(cur.get(k) == v for k, v in prev.items())
         why = None
         if f.get("k") in ("pure", "none"):
